@@ -14,11 +14,17 @@ CHECKS = {
  "C06": ("Theorem: whatever the model decoder accepts re-encodes to the input CBOR tree (up to the leaf-tag alias 24->201); rejection lemmas per malformed class; the model decoder is total and has no panic outcome. Correspondence of verdict and result on valid encodings, single/double structural mutations, byte mutations, hand-made non-canonical forms and random bytes; re-encode, independent-grammar and catch_unwind oracles on the implementation.", "5/C06"),
  "C07": ("Theorem: adding the same set of assertions in any order with any repetition gives equal envelopes; add idempotent; remove-after-add restores; unwrap(wrap)=id. Correspondence over permutations; receiver-unchanged and unordered-collection oracles on the implementation.", "5/C07"),
  "C08": ("Theorems relative to AEAD and codec laws: decrypt(encrypt) returns the original for every subject case; digest preserved; wrong key, any tampering and a mis-declared digest give an error; double encryption refused. Correspondence on outcomes/shapes (toy AEAD in the model); real ChaCha20-Poly1305 single-bit tampering, wrong-key and mis-declaration oracles on the implementation.", "5/C08"),
+ "C09": ("Theorems over the model of the verification glue relative to idealised signature laws: an added signature verifies under its key and no other, survives obscuring and added assertions (subject digest unchanged, from C02), threshold iff count, returned metadata is covered by a signature of the same key; order independence of the search. Implementation-side oracles with real keys of every scheme (Schnorr, ECDSA, Ed25519, SSH, ML-DSA), obscuration after signing, thresholds 1..n+1 and adversarial 'signed' assertions; produced envelopes are imported into the model through their encoding.", "5/C09"),
+ "C10": ("Theorems relative to idealised KEM/AEAD laws: each recipient opens, a non-recipient gets UnknownRecipient, digest preserved, adding recipients is monotone, wrap-and-encrypt and seal/unseal round trips. Oracles with real X25519 / ML-KEM keys (mixed levels, duplicates), outsiders, seal/unseal with wrong keys; envelopes imported into the model.", "5/C10"),
+ "C11": ("Theorems relative to idealised SSKR laws: join succeeds with the original subject iff the subset satisfies the policy, never another envelope, never a panic; every share has the digest-preserving encrypted subject. Oracles with the real sskr crate: every subset (exhaustive) of every share set for a table of policies, mixtures of two splits.", "5/C11"),
  "C12": ("Theorems: a proof exists iff every target occurs; it has the root digest; it is accepted by a holder of the root digest; confirm is exactly root-digest equality plus occurrence of every target in the proof. Correspondence on proof shapes and confirm verdicts; completeness/soundness/minimal-disclosure oracles on the implementation.", "5/C12"),
  "C13": ("Theorems relative to DEFLATE and codec laws: uncompress(compress e) = e, digests preserved, compress idempotent, subject forms, mis-declared digest and corrupt data rejected. Correspondence on shapes/digests; real-DEFLATE round-trip, mis-declaration and corruption oracles on the implementation.", "5/C13"),
  "C14": ("Theorems: equivalent iff digests equal; identical iff equivalent and equal structural images; reflexive/symmetric/transitive; unique decodability of the structural image; obscuring changes identity but not equivalence. Correspondence on eq and structural digests; independent pattern oracle on the implementation.", "5/C14"),
  "C15": ("Theorems: the structure walk lists every element once, parents first, with level and edge as specified; count, digest sets per level, predicate lookups by digest (also through elided predicates), single-result errors. Correspondence on walks (both modes), counts, digest sets, lookups and typed extraction; independent traversal and by-hand leaf decoding oracles.", "5/C15"),
  "C16": ("Theorems: every modelled operation has no panic outcome on invariant-satisfying inputs (every unwrap/expect/assert/index of the modelled Rust functions is an explicit panic branch in the model). Correspondence of panic outcomes on random histories; catch_unwind battery of ~150 public API calls on generated, decorated, obscured and adversarially decoded envelopes.", "5/C16"),
+ "C17": ("Theorems: add_salt leaves subject and assertions unchanged and adds exactly one 'salt' assertion; short lengths/ranges refused; a salted add carries exactly one salt assertion and is found by its predicate; different salts give different digests (under collision freedom); unsalted add deterministic. Oracles over sizes 1 B..100 KB for length ranges, refusals, independence of repeated saltings; envelopes imported into the model.", "5/C17"),
+ "C18": ("Theorems over the structural model of expression/request/response/event envelopes: round trips (integral dates), documented shape, rejection of both/neither result and error, wrong subject tag, other function; known vs named functions distinct. Oracles: equality of parsed values directly and through bytes, malformed variants; envelopes imported into the model.", "5/C18"),
+ "C19": ("Theorems over the structural model: attachments returns exactly the added attachment assertions with their payload/vendor/conformsTo; filters exact; none/several errors; malformed attachments invalid; has_type iff added. Oracles with payloads of any shape, repeated vendors, all filter combinations, malformed variants, salted type assertions; envelopes imported into the model.", "5/C19"),
 }
 def main():
     checks = []
